@@ -406,7 +406,88 @@ class TraceChainsConnect(Contract):
         return r.replay_scenarios()
 
 
-CONTRACTS = [GetNNDist, AddChainSuffix, AddChainPrefix, TraceChainsConnect]
+class TraceChainsSearch(Contract):
+    """trace_chains, the candidate search of a finished chain (block from `first_coord = ...` to `remain_exit[used_idx] = False`, extracted from the
+    function's AST on every run).  get_nn_dist is used through its contract (GetNNDist).  Proved at the two call sites: the particle in front is
+    searched from the exit site of the chain's last member among the entry sites, the particle behind from the ENTRY SITE OF THE CHAIN'S FIRST MEMBER
+    (its stored position plus its shift -- the coordinates every KD-tree of the function is built from) among the exit sites; both with the
+    requested interval, among particles that are already traced, with the chain's own members hidden during the search and restored afterwards"""
+    prop = "C19"
+    module = "ribana"
+    qual = "trace_chains"
+
+    def cfg_name(self, cfg):
+        return "block=candidate-search"
+
+    def bind(self, cx, cfg):
+        C = ptable.PTable(["x", "y", "z", "shift_x", "shift_y", "shift_z", "object_id", "geom2"], "S_")
+        cx.assume(sym.to_z3(C.n) >= 1)  # requires: a finished chain has at least one member
+        rec = {"calls": [], "flags": {}}
+
+        class Flags:
+            """remain_entry / remain_exit: only `arr[used_idx] = value` happens in the block; the marking of the chain's own members is recorded"""
+            def __init__(self, name):
+                self.name, self.own, self.log = name, "as before the block", []
+
+            def __setitem__(self, k, v):
+                if k is not used:
+                    raise sym.Unsupported("store into the activity flags at other positions than the chain's own members")
+                self.own = v
+                self.log.append(v)
+
+        used = object()
+        fe, fx = Flags("remain_entry"), Flags("remain_exit")
+        dmax, dmin = SV(z3.Real("max_distance")), SV(z3.Real("min_distance"))
+        p_coord = object()
+
+        def nn_stub(kdt, query, dist_max, dist_min, active, test_value):
+            k = len(rec["calls"])
+            rec["calls"].append({"kdt": kdt, "query": query, "max": dist_max, "min": dist_min, "flags": active, "own_marked": getattr(active, "own", None), "test": test_value})
+            return SV(z3.Int(f"nn_idx_{k}")), SV(z3.Real(f"nn_dist_{k}"))
+
+        it = Interp("ribana", common.base_globals(), contracts={"get_nn_dist": nn_stub})
+        f = it.block_function("trace_chains", lambda s: s.startswith("first_coord = ") and "reshape" not in s, lambda s: s.startswith("remain_exit[used_idx] = False"),
+                              ["ch_m", "used_idx", "remain_entry", "remain_exit", "kdt_entry", "kdt_exit", "p_coord", "max_distance", "min_distance"],
+                              ["nm_idx", "nm_dist", "first_idx", "first_dist"])
+
+        def thunk():
+            rec["calls"] = []
+            fe.own, fe.log, fx.own, fx.log = "as before the block", [], "as before the block", []
+            out = f(C, used, fe, fx, "entry-tree", "exit-tree", p_coord, dmax, dmin)
+            return {"out": out, "calls": list(rec["calls"]), "logs": (list(fe.log), list(fx.log))}
+        return thunk, {"C": C, "fe": fe, "fx": fx, "p_coord": p_coord, "dmax": dmax, "dmin": dmin, "lines": it.block_lines}
+
+    def post(self, cx, cfg, inp, res):
+        import numpy as np
+        calls, C = res["calls"], inp["C"]
+        cl = [("two_searches", z3.BoolVal(len(calls) == 2))]
+        if len(calls) != 2:
+            return cl
+        front, behind = calls
+        cl.append(("particle_in_front_searched_from_the_exit_site_of_the_last_member_among_entry_sites",
+                   z3.BoolVal(front["kdt"] == "entry-tree" and front["query"] is inp["p_coord"] and front["flags"] is inp["fe"])))
+        q = behind["query"]
+        shape_ok = isinstance(q, np.ndarray) and q.shape == (1, 3)
+        cl.append(("particle_behind_searched_among_exit_sites_with_one_query_point", z3.BoolVal(behind["kdt"] == "exit-tree" and behind["flags"] is inp["fx"] and bool(shape_ok))))
+        if shape_ok:
+            want = [C.initial[a](z3.IntVal(0)) + C.initial["shift_" + a](z3.IntVal(0)) for a in "xyz"]
+            cl.append(("query_point_behind_is_the_entry_site_of_the_chains_first_member", z3.And(*[zr(q[0, k]) == want[k] for k in range(3)]), ()))
+        cl.append(("requested_interval_forwarded", z3.BoolVal(all(c["max"] is inp["dmax"] and c["min"] is inp["dmin"] for c in calls))))
+        cl.append(("candidates_are_already_traced_particles", z3.BoolVal(all(c["test"] is False for c in calls))))
+        cl.append(("own_members_hidden_during_both_searches_and_restored_afterwards",
+                   z3.BoolVal(all(c["own_marked"] is True for c in calls) and res["logs"] == ([True, False], [True, False]))))
+        o = res["out"]
+        ok = (isinstance(o, tuple) and len(o) == 4 and all(isinstance(x, SV) for x in o)
+              and o[0].t.eq(z3.Int("nn_idx_0")) and o[1].t.eq(z3.Real("nn_dist_0")) and o[2].t.eq(z3.Int("nn_idx_1")) and o[3].t.eq(z3.Real("nn_dist_1")))
+        cl.append(("results_named_for_the_connection_step", z3.BoolVal(bool(ok))))
+        return cl
+
+    def replay(self, clause, model, cfg):
+        from rtc import c19 as r
+        return r.replay_scenarios()
+
+
+CONTRACTS = [GetNNDist, AddChainSuffix, AddChainPrefix, TraceChainsConnect, TraceChainsSearch]
 LEVEL = "other"
 EXPLANATION = ("get_nn_dist is proved (quantified obligations over the sorted radius-query contract and the boolean-mask selection contract) to return the nearest candidate with the requested activity flag and "
                "distance in (dist_min, dist_max], with that distance, or -1 when none exists. add_chain_suffix and add_chain_prefix (both call forms) are proved on position-function tables to preserve the chain "
@@ -415,7 +496,9 @@ EXPLANATION = ("get_nn_dist is proved (quantified obligations over the sorted ra
                "number, and to leave every other cell unchanged; the no-change outcome occurs only when the existing link is at least as short. The connection step of trace_chains (block from `ch_changed = False` to the call "
                "of add_chain_prefix, extracted mechanically) is verified against the two callee contracts: every REQUIRES holds at both call sites - in particular the object number handed over for a cut-off head is "
                "unused, also after add_chain_suffix cut off a tail - and every object number in use stays below the counter class_c, under the loop invariant 'the finished chain carries class_c - 1 and every number in the "
-               "table is below it'. The rest of the main loop of trace_chains (forward tracing, which candidates are looked up, the assembly per tomogram) is checked only by the bounded run-time contract (the property verbatim) on random dense clusters and on "
+               "table is below it'. The candidate search that precedes it (block from `first_coord = ...` to `remain_exit[used_idx] = False`) is verified at its two get_nn_dist call sites: the particle behind is searched "
+               "from the entry site (stored position + shift) of the chain's first member among the exit sites, the particle in front from the last member's exit site among the entry sites, with the requested interval, among "
+               "already traced particles, the chain's own members hidden during the search and restored afterwards. The rest of the main loop of trace_chains (forward tracing, the tie rules between the two candidates, the assembly per tomogram) is checked only by the bounded run-time contract (the property verbatim) on random dense clusters and on "
                "role-based arrangements that reach every branch; that part is labelled bounded and never counted as proved.")
 ASSUMPTIONS = ["sklearn KDTree.query_radius(sort_results=True) contract; numpy boolean-mask selection keeps order",
                "pandas semantics of the position-function table model (vfw/models/ptable.py): .loc[mask, cols] = v writes exactly the masked cells, .values[0] is the first masked row, np.max is attained and dominates, "
